@@ -30,6 +30,7 @@ def dispatch (op : String) (j : Json) : Except String Json :=
   | "string_clean" => Drv.stringClean j
   | "string_check" => Drv.stringCheck j
   | "check" => Drv.gradeCheck j
+  | "interval_check" => Drv.intervalCheck j
   | "call" => Drv.gradeCall j
   | "parse_hist" => Drv.parseHist j
   | "parse_hist_heap" => Drv.parseHistHeap j
